@@ -2,7 +2,8 @@
    Statements only (proofs in ValueProofs.v); all over the real-number instance of the model. *)
 From Coq Require Import ZArith List Bool Reals Lra Lia.
 From Coquelicot Require Import Coquelicot.
-From CV Require Import Base.Num Base.RNum C18.ValueModel C18.ValueProofs C18.GradProofs C18.ExtraProofs.
+From Flocq Require Import Core.Raux.
+From CV Require Import Base.Num Base.RNum C18.ValueModel C18.ValueProofs C18.GradProofs C18.ExtraProofs C18.Round3Proofs.
 Import ListNotations.
 Local Open Scope R_scope.
 
@@ -384,3 +385,89 @@ Proof.
   - pose proof (q_dot_bound p q H1 H2) as Hb. split; [exact Hb | apply clamp1_id; exact Hb].
 Qed.
 Print Assumptions C18_inner_bounded_on_manifold.
+
+(* =====================================================================================================
+   Round 3
+   ===================================================================================================== *)
+
+(* ---- a variable that is a sum / difference of scalar components (coefficients +-1): it is periodic exactly when every
+   component has the period of the first one; otherwise it is an ordinary scalar: its distance is zero ONLY for equal values and
+   wrap is the identity (before the repair a non-periodic sum such as dihedral + distance used the period of its first component:
+   hv_before_fix_refuted in Round3Proofs.v) ---- *)
+Theorem C18_sum_of_components_metric : forall (c : R) (ps : list (option R)),
+  (forall P, hv_period Rops ps = Some P <-> (exists r, ps = Some P :: r) /\ List.Forall (fun q => q = Some P) ps) /\
+  (forall P, hv_period Rops ps = Some P -> hv_kind Rops c ps = KPeriodic P c) /\
+  (hv_period Rops ps = None -> forall x y : R,
+     hv_kind Rops c ps = KScalar /\
+     (comp_dist2 Rops PI (hv_kind Rops c ps) (VS x) (VS y) = Some 0 <-> x = y) /\
+     comp_wrap Rops (hv_kind Rops c ps) (VS x) = VS x).
+Proof.
+  intros c ps. split; [intros P; apply hv_period_some|]. split; [intros P; apply hv_periodic_kind|].
+  intros H x y. apply hv_nonperiodic_metric; exact H.
+Qed.
+Print Assumptions C18_sum_of_components_metric.
+Example C18_example_sums : hv_period Rops [Some 360; None] = None /\ hv_period Rops [Some 10; Some 20] = None /\
+  hv_period Rops [Some 360; Some 360] = Some 360.
+Proof.
+  unfold hv_period; cbn [forallb neqb Rops andb].
+  assert (E1 : Reqb' 20 10 = false) by (unfold Reqb'; destruct (Req_EM_T 20 10); [lra | reflexivity]).
+  assert (E2 : Reqb' 360 360 = true) by (apply Reqb_true; reflexivity).
+  rewrite E1, E2. repeat split.
+Qed.
+
+(* ---- distanceVec in an orthorhombic cell: the left and the right gradient are the partial derivatives in the first and in
+   the second argument, component by component, off the half-cell cut of that component ---- *)
+Theorem C18_distvec_cell_grad_is_derivative : forall lx ly lz : R, 0 < lx -> 0 < ly -> 0 < lz ->
+  forall a1 b1 c1 a2 b2 c2 : R,
+  let cell := Some (lx, ly, lz) in
+  (pdiff Rops lx (a1 - a2) <> - lx / 2 ->
+     is_derive (fun t => dv_dist2 Rops true cell (t, b1, c1) (a2, b2, c2)) a1 (fst (fst (dv_lgrad Rops true cell (a1, b1, c1) (a2, b2, c2))))) /\
+  (pdiff Rops ly (b1 - b2) <> - ly / 2 ->
+     is_derive (fun t => dv_dist2 Rops true cell (a1, t, c1) (a2, b2, c2)) b1 (snd (fst (dv_lgrad Rops true cell (a1, b1, c1) (a2, b2, c2))))) /\
+  (pdiff Rops lz (c1 - c2) <> - lz / 2 ->
+     is_derive (fun t => dv_dist2 Rops true cell (a1, b1, t) (a2, b2, c2)) c1 (snd (dv_lgrad Rops true cell (a1, b1, c1) (a2, b2, c2)))).
+Proof. intros lx ly lz Hx Hy Hz a1 b1 c1 a2 b2 c2. exact (dv_cell_lgrad_derive lx ly lz Hx Hy Hz a1 b1 c1 a2 b2 c2). Qed.
+Print Assumptions C18_distvec_cell_grad_is_derivative.
+Theorem C18_distvec_cell_rgrad_is_derivative : forall lx ly lz : R, 0 < lx -> 0 < ly -> 0 < lz ->
+  forall a1 b1 c1 a2 b2 c2 : R,
+  let cell := Some (lx, ly, lz) in
+  (pdiff Rops lx (a2 - a1) <> - lx / 2 ->
+     is_derive (fun t => dv_dist2 Rops true cell (a1, b1, c1) (t, b2, c2)) a2 (fst (fst (dv_rgrad Rops true cell (a1, b1, c1) (a2, b2, c2))))) /\
+  (pdiff Rops ly (b2 - b1) <> - ly / 2 ->
+     is_derive (fun t => dv_dist2 Rops true cell (a1, b1, c1) (a2, t, c2)) b2 (snd (fst (dv_rgrad Rops true cell (a1, b1, c1) (a2, b2, c2))))) /\
+  (pdiff Rops lz (c2 - c1) <> - lz / 2 ->
+     is_derive (fun t => dv_dist2 Rops true cell (a1, b1, c1) (a2, b2, t)) c2 (snd (dv_rgrad Rops true cell (a1, b1, c1) (a2, b2, c2)))).
+Proof. intros lx ly lz Hx Hy Hz a1 b1 c1 a2 b2 c2. exact (dv_cell_rgrad_derive lx ly lz Hx Hy Hz a1 b1 c1 a2 b2 c2). Qed.
+Print Assumptions C18_distvec_cell_rgrad_is_derivative.
+Example C18_example_cell_off_cut : 0 < 8 /\ pdiff Rops 8 (1 - 7) <> - 8 / 2.
+Proof. split; [lra|]. assert (pdiff Rops 8 (1 - 7) = 2) as -> by (apply (pdiff_unique 8 _ 2 (-1)); simpl; lra). lra. Qed.
+
+(* ---- distanceVec in a GENERAL (triclinic) cell with vectors a, b, c (colvarproxy_system::update_pbc_lattice +
+   position_distance): non-negative, zero exactly for lattice-equivalent points, invariant under lattice translations,
+   equal to the orthorhombic model for an orthogonal cell, and - off the cut - symmetric with rgrad = -lgrad ---- *)
+Theorem C18_distvec_triclinic_metric : forall (a b c x1 x2 : vec3) (n1 n2 n3 : Z), det3 a b c <> 0 ->
+  0 <= dvt_dist2 Rops a b c x1 x2 /\
+  (dvt_dist2 Rops a b c x1 x2 = 0 <-> exists m1 m2 m3 : Z, v3sub Rops x2 x1 = lat3 a b c (IZR m1) (IZR m2) (IZR m3)) /\
+  dvt_dist2 Rops a b c x1 (v3add Rops x2 (lat3 a b c (IZR n1) (IZR n2) (IZR n3))) = dvt_dist2 Rops a b c x1 x2.
+Proof. exact dvt_metric. Qed.
+Print Assumptions C18_distvec_triclinic_metric.
+Theorem C18_distvec_triclinic_symmetric_partial : forall (a b c x1 x2 : vec3), off_cut3 a b c (v3sub Rops x2 x1) ->
+  dvt_dist2 Rops a b c x2 x1 = dvt_dist2 Rops a b c x1 x2 /\
+  dvt_rgrad Rops a b c x1 x2 = v3scale Rops (-1) (dvt_lgrad Rops a b c x1 x2).
+Proof. exact dvt_sym. Qed.
+Print Assumptions C18_distvec_triclinic_symmetric_partial.
+Theorem C18_distvec_triclinic_extends_orthorhombic : forall (lx ly lz : R) (p1 p2 : vec3), 0 < lx -> 0 < ly -> 0 < lz ->
+  tri_position_distance Rops (lx, 0, 0) (0, ly, 0) (0, 0, lz) p1 p2 = position_distance Rops (Some (lx, ly, lz)) p1 p2.
+Proof. exact tri_pd_ortho. Qed.
+Print Assumptions C18_distvec_triclinic_extends_orthorhombic.
+Example C18_example_triclinic : det3 (8, 0, 0) (2, 8, 0) (0, 0, 8) <> 0 /\ off_cut3 (8, 0, 0) (2, 8, 0) (0, 0, 8) (1, 0, 0).
+Proof.
+  split; [unfold det3, v3dot, v3cross; cbn; lra|].
+  unfold off_cut3.
+  assert (E : frac3 (8, 0, 0) (2, 8, 0) (0, 0, 8) (1, 0, 0) = (1 / 8, 0, 0))
+    by (unfold frac3, recip, v3dot, v3cross; cbn; f_equal; [f_equal|]; field).
+  rewrite E.
+  assert (F : forall s : R, 0 <= s < 1 / 2 -> IZR (Zfloor (s + 1 / 2)) <> s + 1 / 2).
+  { intros s Hs. assert (Zfloor (s + 1 / 2) = 0%Z) as -> by (apply Zfloor_imp; simpl; lra). simpl. lra. }
+  repeat split; apply F; lra.
+Qed.
